@@ -120,9 +120,9 @@ def fsAt (l : List Event) (n : Nat) : FS := fsAfter (l.take n)
 /-! ## The trace -/
 
 inductive Version
-  | repaired   -- what the property demands (all fixes of `fixes/C19-*.patch`)
+  | repaired   -- what the property demands = the tree as it is now (all `fixes/C19-*.patch` applied)
   | asIs       -- the originally pinned tree (findings F-C19, F-C19b, F-C19c)
-  | keyFixed   -- the tree after the F-C19/F-C19b repair only: F-C19c (bottom-up + re-used chunks) remains
+  | keyFixed   -- (record) the tree after the F-C19/F-C19b repair only: F-C19c (bottom-up + re-used chunks) remained
   deriving DecidableEq, Repr
 
 /-- Is the key blank in what `__init__` saves? -/
